@@ -61,11 +61,11 @@ func c11(r *core.Report) {
 
 	// frozen who-may-do-I/O table (symbol -> reason)
 	mayIO := map[string]string{
-		"ReadFromHTTP$1":          "the HTTP reader behind ReadFromURIFunc",
-		"ReadFromFile":            "the file reader behind ReadFromURIFunc",
-		"URIMapCache$1":           "caching wrapper: delegates to the wrapped reader",
-		"ReadFromURIs$1":          "reader chain: delegates to the given readers",
-		"(*Loader).readURL":       "the single funnel from the loader to a reader",
+		"ReadFromHTTP$1":             "the HTTP reader behind ReadFromURIFunc",
+		"ReadFromFile":               "the file reader behind ReadFromURIFunc",
+		"URIMapCache$1":              "caching wrapper: delegates to the wrapped reader",
+		"ReadFromURIs$1":             "reader chain: delegates to the given readers",
+		"(*Loader).readURL":          "the single funnel from the loader to a reader",
 		"(*Loader).LoadFromIoReader": "reads the caller-supplied reader, which is the root document",
 	}
 	short := func(fn *ssa.Function) string {
